@@ -187,6 +187,7 @@ def frame_buffer(v, st):
 
 
 def _pr_loop(reg, ex):
+    ex.check_timeout_ms = 1500
     _bytesio_model(reg)
 
     def linv(L):
@@ -255,7 +256,13 @@ def pr_contract(I, self, size):
     return out
 
 
+def _fast(ex, ms=1500):
+    """String obligations: give z3 a short in-process budget; what it leaves `unknown` goes to the cvc5 portfolio (parallel)."""
+    ex.check_timeout_ms = ms
+
+
 def _with_pr(reg, ex):
+    _fast(ex)
     _bytesio_model(reg)
     reg.stubs[SR + '._perform_read'] = pr_contract
 
@@ -412,6 +419,94 @@ def read(v):
         else:
             v.check('sized-read-bounded', Len(out.value) <= size)
         v.cover('returns')
+
+
+# ---------------------------------------------------------------------------
+# _read_until (+ _finalize_read_until, _read, peek, _fill_buffer inlined): delimiter search across chunks
+
+RU_INLINE = [SR + '._finalize_read_until', SR + '._read', SR + '.peek', SR + '._fill_buffer', SR + '._normalize_size']
+
+
+def _ru_setup(strong):
+    def setup(reg, ex):
+        _with_pr(reg, ex)
+
+        def linv(L):
+            s = L['self']
+            rf = s._read_func
+            J = Joined(L['result'])
+            B = Sub(s._buffer, s._buffer_pos, s._buffer_len - s._buffer_pos)
+            S = Sub(rf.src, rf.pos, s._max_bytes_remaining)
+            have = L['have_bytes']
+            base = And(
+                inv_term(s._buffer, s._buffer_len, s._buffer_pos, s._max_bytes_remaining, rf),
+                have == Len(J),
+                J + B + S == rf.V0,                      # backlog ++ view == the view at entry: nothing lost, nothing duplicated
+                have <= L['size'],
+            )
+            if not strong:
+                return base
+            # no occurrence of the delimiter starts inside the backlog
+            return And(base, Or(rf.i0 < 0, rf.i0 >= have))
+
+        reg.loops[(SR + '._read_until', 'while#0')] = LoopSpec(inv=linv, lists={'result': 'bytes'})
+
+    return setup
+
+
+def read_until_spec(v, st, delim, size):
+    """Flat cursor: stop at the first occurrence of the delimiter, at `size`, or at the end -- whichever comes first."""
+    i0 = Find(st.V0, delim)
+    return i0, Ite(i0 >= 0, Min(size, i0), Min(size, st.nV))
+
+
+def post_read_until(v, st, out, delim, size, consume, strong):
+    s = st.s
+    dl = Len(delim)
+    i0, tgt = read_until_spec(v, st, delim, size)
+    DelimiterError = v.real('falcon.errors:DelimiterError')
+    bad = Or(dl < 1, dl > st.cs)
+    v.check('delimiter-length-outside-1..chunk_size-raises-valueerror', Iff(out.exc is not None and out.exc.isa(ValueError), bad))
+    if out.exc is not None and out.exc.isa(ValueError):
+        v.check('valueerror-consumes-nothing', And(view(v, s) == st.V0, st.rf.pos == 0))
+        return
+    if out.exc is not None:
+        v.check('only-delimiter-error-escapes', And(out.exc.isa(DelimiterError), bool(consume)))
+        check_inv(v, s)
+        if strong:
+            v.check('delimiter-error-only-if-the-bytes-after-the-result-are-not-the-delimiter', Sub(st.V0, tgt, dl) != delim)
+        v.cover('delimiter-error')
+        return
+    ret = out.value
+    n = Len(ret)
+    c = dl if consume else 0
+    v.check('returns-the-next-bytes-of-the-view', ret == Sub(st.V0, 0, n))
+    v.check('never-more-than-size', n <= size)
+    v.check('view-advances-by-the-returned-bytes-plus-the-consumed-delimiter', view(v, s) == Sub(st.V0, n + c, st.nV))
+    if consume:
+        v.check('consumed-bytes-are-the-delimiter', Sub(st.V0, n, dl) == delim)
+    check_inv(v, s)
+    if strong:
+        v.check('stops-at-the-first-delimiter-or-size-or-end', n == tgt)
+        v.check('returned-bytes-contain-no-delimiter', Not(SStr(_s(ret), 'bytes').contains(delim)) if is_sym(ret) or is_sym(delim) else delim not in ret)
+    v.cover('returns')
+
+
+def _read_until(v, strong):
+    st = mk(v)
+    delim = v.bytes('delimiter')
+    size = v.int('size', 0)
+    v.assume(size <= st.rem + st.nB)
+    consume = bool(v.choose(2, 'consume_delimiter'))
+    st.rf.V0 = st.V0
+    st.rf.i0 = Find(st.V0, delim)
+    out = v.call(st.s, delim, size, consume)
+    post_read_until(v, st, out, delim, size, consume, strong)
+
+
+for _c in (0, 1):
+    harness(PROP, SR + '._read_until', name='_read_until[prefix,consume=%d]' % _c, setup=_ru_setup(False), inline=RU_INLINE,
+            fix={'consume_delimiter': _c})(lambda v: _read_until(v, False))
 
 ASSUMPTIONS = []
 NOT_DECIDED = []
